@@ -66,6 +66,12 @@ fn meaning_signature(toks: &[Tok], reasons: &[Ill]) -> String {
 }
 
 pub fn check_tokens(toks: &[Tok], l: &mut Local) -> Outcome {
+    check_tokens_in(toks, None, l)
+}
+
+/// `base`: evaluate in this context extended generously (instead of the all-Int generous context),
+/// so that well-typed programs keep evaluating.
+pub fn check_tokens_in(toks: &[Tok], base: Option<&Ctx>, l: &mut Local) -> Outcome {
     let reasons = ill_formed(toks);
     let is_balanced = balanced(toks);
     let src = tok::render_spaced(toks);
@@ -155,7 +161,20 @@ pub fn check_tokens(toks: &[Tok], l: &mut Local) -> Outcome {
     };
     let wrong_arity = !arity_ok(&tree);
     // evaluation in a generous context must never succeed
-    let ctx = generous_context(toks);
+    let mut ctx = generous_context(toks);
+    if let Some(b) = base {
+        for (k, v) in &b.vars {
+            ctx.vars.insert(k.clone(), v.clone());
+        }
+        for (k, f) in &b.funcs {
+            ctx.funcs.insert(k.clone(), f.clone());
+        }
+        // builtin names must resolve to the builtins (generous_context binds every identifier as a
+        // user function, which would shadow `if`, `len`, …)
+        for name in refmodel::builtins::BUILTINS {
+            ctx.funcs.remove(name);
+        }
+    }
     let log = new_log();
     let mut real = build_hashmap(&ctx, &log);
     let r = vcore::catch(|| tree.eval_with_context_mut(&mut real));
@@ -191,7 +210,7 @@ pub fn run(rep: &Report) {
     rep.set_rule(
         "every token sequence up to the length bound over the base alphabet plus `true`, classified by a local recogniser (I1 \
          unbalanced, I2 prefix without operand, I3 binary operator without operand, I4 juxtaposed operands) that builds \
-         no tree; random longer well-formed renderings with one planted defect. Oracle: unbalanced -> build error; \
+         no tree; random longer well-formed renderings with one planted defect, also of type-directed programs that call eager builtins (`if`, `min`, `len`, ...) and evaluate successfully before the defect is planted. Oracle: unbalanced -> build error; \
          balanced -> never an unmatched-brace error; I2/I3/I4 -> build error or wrong-arity node, and evaluation in a \
          generous context (every identifier bound as Int variable and as a function, builtins on) never Ok. \
          Non-trivial: ill-formed by exactly one reason with >= 3 tokens, or balanced with nesting >= 2.",
@@ -221,6 +240,7 @@ pub fn run(rep: &Report) {
             });
         }
     }
+    planted_typed(rep);
     rep.set_exhaustive(true);
     rep.add_extra("sequence_bound", json!(format!("all sequences of length <= {} over the 17-symbol alphabet (base + true)", max_len)));
     let n = rep.tier.pick(200_000u64, 3_000_000);
@@ -238,6 +258,49 @@ pub fn run(rep: &Report) {
             };
             l.sample(2, || json!(p.src.clone()));
             check_tokens(&toks, l)
+        },
+    );
+}
+
+/// Typed programs (which call `if`, `min`, `len`, … with well-typed arguments and therefore
+/// evaluate successfully) with one token deleted: a dead branch must not hide a missing operand.
+fn planted_typed(rep: &Report) {
+    use proptest::prelude::*;
+    let n = rep.tier.pick(150_000u64, 2_000_000);
+    common::random_search(
+        rep,
+        "planted-typed",
+        131,
+        n,
+        &|| (programs::arb_typed_program(3), any::<u16>(), 0u8..3).boxed(),
+        &|(p, pos, kind): &(programs::Program, u16, u8), l| {
+            let mut toks = match tok::lex(&p.src) {
+                Ok(o) if !o.d6 => o.toks,
+                _ => return Ok(()),
+            };
+            if toks.is_empty() {
+                return Ok(());
+            }
+            let i = (*pos as usize * toks.len()) >> 16;
+            match kind {
+                0 => {
+                    toks.remove(i);
+                },
+                1 => {
+                    let t = toks[i].clone();
+                    toks.insert(i, t);
+                },
+                _ => {
+                    // delete an operand together with nothing else: only if it is an operand
+                    if toks[i].is_literal() || toks[i].is_ident() {
+                        toks.remove(i);
+                    } else {
+                        return Ok(());
+                    }
+                },
+            }
+            l.label("typed program with a planted defect");
+            check_tokens_in(&toks, Some(&p.ctx), l)
         },
     );
 }
